@@ -3,7 +3,7 @@ import itertools
 
 import z3
 
-from .values import (FIN, NAN, Base, Mode, SArr, SBool, SFloat, SInt, Unsupported, And, fresh_name,
+from .values import (FIN, NAN, Base, Mode, SArr, SBool, SFloat, SInt, Unsupported, And, Implies, Not, fresh_name,
                      int_sort, merge_values, to_bool, to_float, to_int)
 
 UNSIGNED_BITS = {'uint8': 8, 'uint16': 16, 'uint32': 32, 'uint64': 64, 'bool': 1}
@@ -394,6 +394,49 @@ def havoc_base(state, base):
     if base.elem == 'float' and not base.finite:
         new['tag'] = z3.Array(fresh_name(base.name + '_ht'), *idx, z3.IntSort())
     state.heap[base.id] = new
+
+
+def havoc_view(state, arr):
+    """a callee that is handed the view `arr` may change the cells of that view only: havoc the base, then state that
+    every base cell outside the view keeps its value"""
+    base = arr.base
+    if base.kind == 'conc':
+        havoc_base(state, base)
+        return
+    old = content_reader(base, state.heap[base.id])
+    havoc_base(state, base)
+    whole = True
+    for d, extent in zip(arr.dims, base.shape):
+        if d[0] == 'fix':
+            whole = False
+            break
+        _, off, stride, n = d
+        if not (off.concrete and off.v == 0 and stride.concrete and stride.v == 1 and
+                (n is extent or (n.concrete and to_int(extent).concrete and n.v == to_int(extent).v))):
+            whole = False
+            break
+    if whole:
+        return
+    new = content_reader(base, state.heap[base.id])
+
+    def in_view(idx):
+        conds = []
+        for d, i in zip(arr.dims, idx):
+            if d[0] == 'fix':
+                conds.append(i == d[1])
+            else:
+                _, off, stride, n = d
+                if stride.concrete and stride.v == 1:
+                    conds.append(And(i >= off, i < off + n))
+                else:
+                    conds.append(And(i >= off, i < off + stride * n, ((i - off) % stride) == 0))
+        return And(*conds)
+    vs = [z3.Const(fresh_name('hv'), int_sort()) for _ in base.shape]
+    idx = [SInt(v) for v in vs]
+    a, b = new(idx), old(idx)
+    same = a.same(b) if isinstance(a, SFloat) else (a.iff(b) if isinstance(a, SBool) else a == b)
+    body = Implies(Not(in_view(idx)), same)
+    state.assume(SBool(z3.ForAll(vs, body.z())))
 
 
 # ------------------------------------------------------------------ slicing
